@@ -319,6 +319,46 @@ class Program:
             return b[0].value
         return None
 
+    def predicate_expr(self, cname, name):
+        """the boolean expression computed by a method written as a decision list of returns
+        (`if A: return True` / `return B`  ->  `A or B`), or None"""
+        ci, fn = self.resolve(cname, name)
+        if fn is None:
+            return None
+
+        def is_const(e, v):
+            return isinstance(e, ast.Constant) and e.value is v
+
+        def conv(stmts):
+            if not stmts:
+                return None
+            s0 = stmts[0]
+            if isinstance(s0, ast.Return):
+                return s0.value
+            if isinstance(s0, ast.If) and len(s0.body) == 1 and isinstance(s0.body[0], ast.Return) and s0.body[0].value is not None:
+                v1 = s0.body[0].value
+                rest = conv(s0.orelse if s0.orelse else stmts[1:])
+                if rest is None:
+                    return None
+                t = s0.test
+                if is_const(v1, True):
+                    return ast.BoolOp(op=ast.Or(), values=[t, rest])
+                if is_const(v1, False):
+                    return ast.BoolOp(op=ast.And(), values=[ast.UnaryOp(op=ast.Not(), operand=t), rest])
+                if is_const(rest, False):
+                    return ast.BoolOp(op=ast.And(), values=[t, v1])
+                if is_const(rest, True):
+                    return ast.BoolOp(op=ast.Or(), values=[ast.UnaryOp(op=ast.Not(), operand=t), v1])
+                return ast.IfExp(test=t, body=v1, orelse=rest)
+            return None
+        b = body_of(fn)
+        if len(b) < 2:
+            return None
+        e = conv(b)
+        if e is None:
+            return None
+        return ast.fix_missing_locations(ast.copy_location(e, b[0]))
+
     def enum_members(self, cname):
         """NAME -> literal for the class-level constant assignments of an enum-like class"""
         ci = self.cls(cname)
